@@ -137,8 +137,9 @@ def render(recipe):
             elif kind == 'spawn':
                 fi, args = stmt[1], stmt[2]
                 fn = funcs[fi]
-                rec(emit(fidx, '%s_t = threading.Thread(target=RUN, args=(lambda: %s, "T%d"), name="T%d")' % (
-                    pad, call_text(fi, args), sid, sid)))
+                emit(fidx, '%s_tn = "T%d_%%d" %% NEXT()' % (pad, sid))
+                rec(emit(fidx, '%s_t = threading.Thread(target=RUN, args=(lambda: %s, _tn), name=_tn)' % (
+                    pad, call_text(fi, args))))
                 emit(fidx, '%s_t.start()' % pad)
                 emit(fidx, '%s_t.join()' % pad)
             elif kind == 'pass':
@@ -211,6 +212,7 @@ class RunResult:
         self.thread_results = {}
         self.trace_after = {}     # thread label -> sys.gettrace() at the end of that thread
         self.agent_leak = None    # an exception that escaped from the agent into program code
+        self.deadlock = None
 
     def observation(self):
         return {'result': self.result, 'exc': self.exc, 'log': self.log, 'threads': self.thread_results}
@@ -234,6 +236,12 @@ def run_program(recipe, rendered, tracer=None, values=None, register_sources=Tru
     def tick(ms):
         lab.CLOCK.advance_ms(ms)
 
+    counter = [0]
+
+    def NEXT():
+        counter[0] += 1
+        return counter[0]
+
     def RUN(fn, label):
         try:
             v = fn()
@@ -253,6 +261,7 @@ def run_program(recipe, rendered, tracer=None, values=None, register_sources=Tru
             setattr(m, 'M%d' % j, mm)
         m.mark = mark
         m.tick = tick
+        m.NEXT = NEXT
         m.RUN = RUN
         m.V = values if values is not None else []
         m.CustomExc = CustomExc
@@ -261,6 +270,11 @@ def run_program(recipe, rendered, tracer=None, values=None, register_sources=Tru
     entry = recipe['funcs'][0]
 
     def runner():
+        # installed here, not through threading.settrace: the bootstrap of this harness-owned thread must not be
+        # traced (an agent failure there would block the harness in Thread.start); threads the *program* spawns
+        # are traced from their bootstrap on, exactly as application threads are
+        threading.settrace(tracer)
+        sys.settrace(tracer)
         try:
             for m, code in zip(mods, codes):
                 exec(code, m.__dict__)
@@ -271,15 +285,31 @@ def run_program(recipe, rendered, tracer=None, values=None, register_sources=Tru
         except BaseException as e:      # noqa
             res.exc = describe_exc(e, res)
         res.trace_after['main'] = sys.gettrace()
+        sys.settrace(None)              # the thread's own teardown is harness code
 
     old = threading.gettrace()
-    threading.settrace(tracer)
+    t = threading.Thread(target=runner, name='main-prog')
     try:
-        t = threading.Thread(target=runner, name='main-prog')
         t.start()
-        t.join(timeout)
+        t.join(3)
         if t.is_alive():
-            raise lab.HarnessError('program thread did not finish')
+            # a definite deadlock shape: the program is blocked in Thread.start() waiting for a thread that already
+            # died while bootstrapping (CPython sets the started event from inside the traced bootstrap)
+            fr = sys._current_frames().get(t.ident)
+            blocked = None
+            f = fr
+            while f is not None:
+                if f.f_code.co_name == 'start' and f.f_code.co_filename.endswith('threading.py'):
+                    blocked = f.f_locals.get('self')
+                f = f.f_back
+            if blocked is not None and not blocked.is_alive():
+                res.deadlock = 'Thread.start() blocked forever: the new thread died in its traced bootstrap'
+                blocked._started.set()          # release the program so the case can be cleaned up
+                t.join(10)
+            else:
+                t.join(timeout)
+            if t.is_alive():
+                raise lab.HarnessError('program thread did not finish')
     finally:
         threading.settrace(old)
     return res
@@ -546,11 +576,17 @@ def chain_programs(draw, n_values=6, max_depth=5):
         for j in range(nh):
             body.append(['hold', draw(st.sampled_from(['h1', 'h2', 'h3'])), draw(st.integers(0, n_values - 1))])
         for j in range(draw(st.integers(0, 2))):
-            body.append(['set', draw(st.sampled_from(_names)),
+            body.append(['set', draw(st.sampled_from(_names + ['G_INT', 'g_helper', 'G_LIST'])),
                          draw(st.sampled_from(["[n, 'x']", "{'k': n}", 'n + 1', "'txt'", "(n, [n])"]))])
         if i < depth:
-            body.append(['call', 'r1', i + 1, ['1']])
-            body.append(['ret', 'r1'])
+            if draw(st.integers(0, 3)) == 0:
+                # hop through freshly started (and joined) threads: several sequential threads reach the deeper code
+                for _ in range(draw(st.integers(2, 3))):
+                    body.append(['spawn', i + 1, ['1']])
+                body.append(['ret', 'n'])
+            else:
+                body.append(['call', 'r1', i + 1, ['1']])
+                body.append(['ret', 'r1'])
         else:
             body.append(['mark', 'n'])
             target = sid + len(body) - 1
